@@ -48,7 +48,13 @@
 	    4 * (size_t) (i) <= g_len0 && (msg)->m_body.ch_len == g_len0 - 4 * (size_t) (i) && \
 	    __CPROVER_same_object((msg)->m_body.ch_buf, (msg)->m_body.ch_ptr) && CH_FULL_SCALAR(&(msg)->m_body) && \
 	    (((msg)->m_body.ch_len != 0) ==> CH_OFF(&(msg)->m_body) == g_off0 + 4 * (size_t) (i)) && \
-	    ((g_k < 4 * (size_t) (i)) ==> HDR(msg)[(h0) + g_k] == g_b) &&     \
+	    RR_LOOP_INV_BYTES(msg, i, h0))
+#ifdef RR_SKIP_BYTES
+#define RR_LOOP_INV_BYTES(msg, i, h0) (1)
+#else
+#define RR_LOOP_INV_BYTES(msg, i, h0)                                      \
+	(((g_k < 4 * (size_t) (i)) ==> HDR(msg)[(h0) + g_k] == g_b) &&        \
 	    ((g_k >= 4 * (size_t) (i) && g_k < g_len0) ==> (msg)->m_body.ch_ptr[g_k - 4 * (size_t) (i)] == g_b) && \
 	    RR_NO_END_BELOW(i))
+#endif
 #endif
